@@ -663,6 +663,10 @@ func c01Alphabet(full bool) []c01Pair {
 		pDropIndex("d", "c", "a_1"), pDropIndex("d", "c", "*"), pListIndexes("d", "c"),
 		pDropColl("d", "c"), pDropDB("d"), pCreateColl("d", "c"), pListColls("d"), pListDBs(),
 		pInsertOne("d", "e", bD("_id", i(1), "a", i(1))), pFind("d", "e", bD(), nil, nil, 0, 0),
+		// a collection whose name starts with the name of another one
+		pInsertOne("d", "cc", bD("_id", i(1), "a", i(1))), pFind("d", "cc", bD(), nil, nil, 0, 0),
+		// windows beyond the end of the collection
+		pCount("d", "c", bD(), 5, 0), pCount("d", "c", bD(), 1, 1), pFind("d", "c", bD(), nil, nil, 5, 0),
 		pTxn(true), pTxn(false),
 	}
 	_ = full
